@@ -21,7 +21,6 @@ LEVEL_TEXT = ("All interleavings (to closure) of bulk IN transactions on two end
               "transaction all three data toggles are measured on the wire by lookahead and compared with a reference.")
 FOREIGN = 5
 MPS = 2
-EPS = ("in1", "out1", "in2")
 
 REQS = {
     "CF81": U.setup_bytes(0x02, 1, 0, 0x0081, 0), "CF01": U.setup_bytes(0x02, 1, 0, 0x0001, 0),
@@ -32,15 +31,31 @@ REQS = {
     "SF81": U.setup_bytes(0x02, 3, 0, 0x0081, 0),       # SET_FEATURE(ENDPOINT_HALT): not CLEAR_FEATURE
     "GST": U.setup_bytes(0x80, 0, 0, 0, 2),             # GET_STATUS (2-byte IN data stage, OUT status stage)
 }
-TARGET = {"CF81": "in1", "CF01": "out1", "CF82": "in2", "CF02": None, "CF83": None}     # what a completed request must reset
 
 
-def _cfg(reqs, gap=1, pace=1, ready=1, fin=0, delays=(), quiet=0, out=1, in2=1, last=0, badcrc=0):
+def is_cf(r):
+    """CFxx = CLEAR_FEATURE(ENDPOINT_HALT) to recipient endpoint with wIndex = 0x00xx"""
+    return len(r) == 4 and r[:2] == "CF"
+
+
+def request_bytes(r):
+    return U.setup_bytes(0x02, 1, 0, int(r[2:], 16), 0) if is_cf(r) else REQS[r]
+
+
+def names_endpoint(r):
+    """(endpoint name a completed CFxx request must reset, reserved wIndex bits used).  wIndex: bit 7 direction, bits 3..0 number
+    [USB 2.0 fig. 9-2]; bits 6..4 are reserved - when they are set the statement does not say whether the request names an
+    endpoint, so the oracle then admits both 'reset' and 'not reset' for that endpoint (and still nothing else may change)."""
+    w = int(r[2:], 16)
+    return ("in" if w & 0x80 else "out") + str(w & 0xF), bool(w & 0x70)
+
+
+def _cfg(reqs, gap=1, pace=1, ready=1, fin=0, delays=(), quiet=0, out=1, in2=2, last=0, badcrc=0):
     return dict(reqs=list(reqs), gap=gap, pace=pace, ready=ready, fin=fin, delays=list(delays), quiet=quiet, out=out, in2=in2, last=last, badcrc=badcrc)
 
 
 def configs(tier):
-    # out / in2: is the OUT ep1 / IN ep2 endpoint part of the device;  fin: traffic of another device address;  delays: cycle offsets
+    # out: is OUT ep1 part of the device;  in2: number of the second IN endpoint (0 = none);  CFxx: CLEAR_FEATURE(HALT), wIndex xx;  fin: traffic of another device address;  delays: cycle offsets
     # (from the start of the next bus event) at which the producer of IN ep1 may start;  last: that producer marks every byte `last`
     q = [_cfg(["CF81"]),
          _cfg(["CF01"], badcrc=1, in2=0),
@@ -51,7 +66,12 @@ def configs(tier):
          _cfg(["CF82"], out=0, fin=1, gap=3, ready=2),
          _cfg(["CF01"], in2=0, fin=1),
          _cfg(["CF81"], out=0, in2=0, delays=range(1, 33), last=1, quiet=1),
-         _cfg(["CF81"], out=0, in2=0, delays=range(1, 33), last=0, gap=2)]
+         _cfg(["CF81"], out=0, in2=0, delays=range(1, 33), last=0, gap=2),
+         # endpoint numbers that alias the present ones modulo 8 / through the reserved wIndex bits
+         _cfg(["CF09", "CF89", "CF01"], in2=0),
+         _cfg(["CF8A", "CF0A", "CF82", "CF89"], out=0),
+         _cfg(["CF89", "CF81", "CF09"], out=0, in2=9, gap=2),
+         _cfg(["CF91", "CF11", "CFC1", "CF81"], in2=0)]
     if tier == "quick":
         return q
     t = [_cfg(["CF81", "CF01", "CF82"], quiet=1),
@@ -59,7 +79,9 @@ def configs(tier):
          _cfg(["CF81", "CF82", "CFI81", "CFV81", "SF81", "GST"], out=0, fin=1),
          _cfg(["CF81", "CF82", "GST"], out=0, pace=2, gap=4, ready=3, fin=1, quiet=1),
          _cfg(["CF81", "CF82"], out=0, delays=range(1, 41), last=1),
-         _cfg(["CF81"], out=0, in2=0, delays=range(1, 49), last=0, gap=2, pace=2, ready=2, quiet=1)]
+         _cfg(["CF81"], out=0, in2=0, delays=range(1, 49), last=0, gap=2, pace=2, ready=2, quiet=1),
+         _cfg(["CF81", "CF89", "CF01", "CF09", "CF8F", "CF0F"], in2=9),
+         _cfg(["CF82", "CF8A", "CF92", "CFA2", "CF12"], out=0, in2=10, gap=2, quiet=1)]
     return q + t
 
 
@@ -98,14 +120,15 @@ class ToggleSpec(Spec):
         super().__init__(cfg, tier)
         self.time_budget = 600 if tier == "quick" else 840
         self.host = DrivenHost(gap=cfg["gap"], pace=cfg["pace"], ready_period=cfg["ready"], extra=dict(connect=1))
-        self.eps = tuple(e for e in EPS if (e != "out1" or cfg["out"]) and (e != "in2" or cfg["in2"]))
+        self.in2 = "in%d" % cfg["in2"] if cfg["in2"] else None
+        self.eps = ("in1",) + (("out1",) if cfg["out"] else ()) + ((self.in2,) if self.in2 else ())
         self._probe_cache = {}
 
     def build(self):
         from luna.gateware.usb.usb2.endpoints.stream import USBStreamInEndpoint, USBStreamOutEndpoint
         mks = [lambda: USBStreamInEndpoint(endpoint_number=1, max_packet_size=MPS)]
         if self.cfg["out"]: mks.append(lambda: USBStreamOutEndpoint(endpoint_number=1, max_packet_size=MPS))
-        if self.cfg["in2"]: mks.append(lambda: USBStreamInEndpoint(endpoint_number=2, max_packet_size=MPS))
+        if self.cfg["in2"]: mks.append(lambda: USBStreamInEndpoint(endpoint_number=self.cfg["in2"], max_packet_size=MPS))
         design, h = build_device(control="standard", ep0_mps=8, endpoints=mks, probe=False)
         eps = h["endpoints"]
         in1 = eps[0]
@@ -123,6 +146,7 @@ class ToggleSpec(Spec):
     def assumptions(self):
         return self.host.assumptions() + [
             "device address 0; no SET_CONFIGURATION / SET_INTERFACE is issued (their effect on toggles is not part of the statement)",
+            "a CLEAR_FEATURE whose wIndex has reserved bits (6..4) set may be STALLed or completed, and may or may not reset the endpoint its bits 7,3..0 name; nothing else may change",
             "a request 'completes' when the ACK of its status stage reaches the device; when that ACK is lost the named endpoint's toggle may or may not be reset (both admitted), every other toggle must be unchanged",
             "legal host at control-transfer level: IN/OUT tokens to endpoint 0 only while a control transfer it started is in the matching stage",
             "a transaction the host did not ACK (ACK lost or data not received) is modelled as 'no ACK sent'",
@@ -140,7 +164,7 @@ class ToggleSpec(Spec):
         masks, ctrl, v1, q, ua = env
         c = self.cfg
         acts = [("in", 1, 1), ("in", 1, 0)]
-        if c["in2"]: acts += [("in", 2, 1), ("in", 2, 0)]
+        if c["in2"]: acts += [("in", c["in2"], 1), ("in", c["in2"], 0)]
         if c["out"]:
             acts += [("out", 0, "ok"), ("out", 1, "ok")]
             if c["badcrc"]: acts += [("out", 0, "badcrc"), ("out", 1, "badcrc")]
@@ -161,7 +185,9 @@ class ToggleSpec(Spec):
     def goals(self):
         g = ["in-ack", "in-noack", "clear-halt-completed", "clear-halt-status-ack-lost", "clear-halt-abandoned", "reset-from-data1"]
         if self.cfg["out"]: g += ["out-accepted", "out-repeat-skipped"] + (["out-badcrc"] if self.cfg["badcrc"] else [])
-        if any(TARGET.get(r, 0) is None and r in TARGET for r in self.cfg["reqs"]): g.append("clear-halt-of-absent-endpoint")
+        cfs = [names_endpoint(r) for r in self.cfg["reqs"] if is_cf(r)]
+        if any(n not in self.eps and not rsv for n, rsv in cfs): g.append("clear-halt-of-absent-endpoint")
+        if any(rsv for n, rsv in cfs): g.append("clear-halt-with-reserved-windex-bits")
         if any(r in ("CFI81", "CFV81", "SF81") for r in self.cfg["reqs"]): g.append("request-error-stalled")
         if self.cfg["fin"]: g.append("foreign-ack-while-in-unacked")
         if self.cfg["delays"]: g += ["in1-drained", "producer-starts-during-status-stage"]
@@ -182,7 +208,7 @@ class ToggleSpec(Spec):
                 try:
                     if ep.startswith("in"):
                         for _ in range(2 * MPS + 2): host.tick(f)
-                        resp = host.send(f, U.token(U.IN, 0, int(ep[2])), True)
+                        resp = host.send(f, U.token(U.IN, 0, int(ep[2:])), True)
                         k = U.classify_device_packet(resp) if resp is not None else None
                         res.append((1 if k[1] == U.DATA1 else 0) if k is not None and k[0] == "data" and k[1] in (U.DATA0, U.DATA1) else None)
                     else:
@@ -239,7 +265,7 @@ class ToggleSpec(Spec):
                 n = 1 << m
             out.append(n)
         self.outcomes.add((cls, meas))
-        return (tuple(out), ctrl, drv.v1, q, 1 if cls in ("in1-noack", "in2-noack") else 0)
+        return (tuple(out), ctrl, drv.v1, q, 1 if cls.startswith("in") and cls.endswith("-noack") else 0)
 
     def _do(self, cur, a, old, new, ctrl, drv, v1):
         """runs the transaction; updates `new` (admissible toggle sets); returns (action class for rule names, new ctrl)"""
@@ -301,9 +327,9 @@ class ToggleSpec(Spec):
             return "out1-repeat", ctrl
         if a[0] == "setup":
             r = a[1]
-            if ctrl is not None and ctrl[0] in TARGET and ctrl[1] == "status": self.cover["clear-halt-abandoned"] += 1
+            if ctrl is not None and is_cf(ctrl[0]) and ctrl[1] == "status": self.cover["clear-halt-abandoned"] += 1
             host.send(cur, U.token(U.SETUP, 0, 0), False)
-            resp = host.send(cur, U.data_packet(U.DATA0, REQS[r]), True)
+            resp = host.send(cur, U.data_packet(U.DATA0, request_bytes(r)), True)
             if resp is None or U.classify_device_packet(resp) != ("hs", U.ACK):
                 raise Violation("setup-not-acked", dict(action=a, resp=resp))
             return "setup-" + r, (r, "data" if r == "GST" else "status")
@@ -312,14 +338,14 @@ class ToggleSpec(Spec):
             resp = host.send(cur, U.token(U.IN, 0, 0), True)
             k = U.classify_device_packet(resp) if resp is not None else None
             if k is not None and k[0] == "hs" and k[1] == U.STALL:
-                if r in TARGET: raise Violation("clear-halt:valid-request-stalled", dict(request=r))
+                if is_cf(r) and not names_endpoint(r)[1]: raise Violation("clear-halt:valid-request-stalled", dict(request=r))
                 self.cover["request-error-stalled"] += 1
                 return "status-stall-" + r, None
             if k is None or k[0] != "data":
                 return "status-nodata-" + r, ctrl                       # NAK / silence: the host will retry
-            if r not in TARGET:
+            if not is_cf(r):
                 raise Violation("request-error-not-stalled", dict(request=r, resp=resp))
-            tgt = TARGET[r]
+            tgt, reserved = names_endpoint(r)
             if tgt not in new: tgt = None
             if not a[1]:
                 if tgt: new[tgt] = old[tgt] | 1
@@ -327,7 +353,10 @@ class ToggleSpec(Spec):
                 return "status-noack-" + r, ctrl
             host.send(cur, U.handshake(U.ACK), False)
             if drv.v1 == 1 and v1 > 1: self.cover["producer-starts-during-status-stage"] += 1
-            if tgt:
+            if reserved:
+                self.cover["clear-halt-with-reserved-windex-bits"] += 1
+                if tgt: new[tgt] = old[tgt] | 1
+            elif tgt:
                 if old[tgt] == 2: self.cover["reset-from-data1"] += 1
                 new[tgt] = 1
             else:
